@@ -130,8 +130,8 @@ func checkC14(c *Ctx, r *Report) {
 			r.Ok("C14.R1", key, c.InstrPos(op.in), fmt.Sprintf("may-held at acquisition=%s; no blocking self-edge or cycle", held))
 		}
 	}
-	r.Floor("C14.R1", nCache, 27, "lock acquisitions in package cache")
-	r.Floor("C14.R1", nTry, 2, "TryLock acquisitions (janitor)")
+	r.Floor("C14.R1", nCache, 16, "lock acquisitions in package cache")
+	r.Floor("C14.R1", nTry, 1, "TryLock acquisitions (janitor)")
 
 	// ---- R2: nothing waits while a map lock is held
 	type agg struct {
